@@ -168,6 +168,24 @@ def _events(args):
         rhs = u.real_expand(q_from_float(omul(A1, B1)))
         add({"op": "flag", "clause": "Multiplicative", "fn": "real_expand",
              "ok": bool(np.max(np.abs(lhs - rhs)) <= 64 * 2.0 ** -52 * 4 * k2 * np.max(np.abs(A1)) * np.max(np.abs(B1)))})
+    # ---- the component-blocked embedding must not depend on the dtype in which a plane happens to be stored
+    for c in cat[81:81 + 12]:
+        base = c.copy()
+        base[..., 1:] += 0.375                       # non-integer imaginary parts, integer real parts
+        ref = u.Realp(*[np.ascontiguousarray(base[..., t]) for t in range(4)])
+        for dt in (np.int64, np.int32, np.float32):
+            planes = [np.ascontiguousarray(base[..., t]) for t in range(4)]
+            planes[0] = planes[0].astype(dt)         # representable exactly: the real parts are small integers
+            got = u.Realp(*planes)
+            add({"op": "flag", "clause": "PlaneDtypeIndependent", "fn": "Realp", "ok": bool(np.array_equal(np.asarray(got, dtype=np.float64), ref)),
+                 "dtype": np.dtype(dt).name, "shape": list(c.shape[:2])})
+        for which in (1, 3):
+            planes = [np.ascontiguousarray(np.rint(base[..., t])) for t in range(4)]
+            refi = u.Realp(*planes)
+            planes[which] = planes[which].astype(np.int64)
+            got = u.Realp(*planes)
+            add({"op": "flag", "clause": "PlaneDtypeIndependent", "fn": "Realp", "ok": bool(np.array_equal(np.asarray(got, dtype=np.float64), refi)),
+                 "dtype": "int64 plane %d" % which, "shape": list(c.shape[:2])})
     # ---- splitting / merging component planes is lossless
     S_ = lib().solver.QGMRESSolver()
     Q = lib().qslst
